@@ -321,6 +321,8 @@ func textEdits(o *render.Out, r *prng.Rand) []edit {
 			}
 		case "number":
 			tok := string(d[s.Off:end])
+			// a numeric token must be followed by a stop character; a lone operator character or a letter is not one
+			ins("number-followed-by-non-stop-character", end, []string{"/x", "/1", "a", "$", "_x", "#"}[r.Intn(6)])
 			// digit grouping around the first digit, the decimal point and the exponent marker (ints, floats, decimals)
 			if body := strings.TrimPrefix(tok, "-"); len(body) > 0 && body[0] >= '0' && body[0] <= '9' &&
 				!strings.HasPrefix(body, "0x") && !strings.HasPrefix(body, "0X") && !strings.HasPrefix(body, "0b") && !strings.HasPrefix(body, "0B") {
@@ -359,6 +361,7 @@ func textEdits(o *render.Out, r *prng.Rand) []edit {
 			}
 		case "timestamp":
 			tok := string(d[s.Off:end])
+			ins("timestamp-followed-by-non-stop-character", end, []string{"/x", "/1", "/", "a", "5", "+", "-1", "#"}[r.Intn(8)])
 			set := func(kind string, pos int, repl string) {
 				if pos+len(repl) <= len(tok) {
 					out = append(out, edit{kind, s.Off + pos, len(repl), []byte(repl)})
